@@ -268,7 +268,12 @@ class RealNet:
 
                     threading.Thread(target=give_up, daemon=True).start()
             else:
-                addr = self._listener(name, (self._host_ip(host.lower()), port))
+                try:
+                    addr = self._listener(name, (self._host_ip(host.lower()), port))
+                except OSError as exc:
+                    # e.g. the address block of this process collides with another process: a harness problem (exit 2), never a verdict
+                    self.errors.append(f"cannot listen on {self._host_ip(host.lower())}:{port} for {name}: {exc!r}")
+                    raise socket.gaierror(socket.EAI_FAIL, "harness could not create the listener")
         return [(socket.AF_INET, socket.SOCK_STREAM, 6, "", addr)]
 
     def _listener(self, name, addr):
